@@ -326,3 +326,138 @@ def assigned_fields(fn):
                 if l.k == 'mem':
                     out.append((n.a[0], None, n.op, n))
     return out
+
+
+# --------------------------------------------------------------- symbolic straight-line values
+
+def loop_assigned(fn):
+    """decl ids of locals assigned inside a loop body (their value is not a
+    single linear form per path)."""
+    from ..ir import walk_stmts, stmt_exprs
+    out = set()
+    for s in walk_stmts(fn.body):
+        if s.k in ('while', 'do', 'for'):
+            exprs = list(stmt_exprs(s.body))
+            if s.k == 'for' and s.inc is not None and not isinstance(s.inc, list):
+                exprs.append(s.inc)
+            for ex in exprs:
+                for n in walk(ex):
+                    if n.k == 'bin' and is_assign_op(n.op):
+                        l = strip(n.a[0])
+                        if l.k == 'var':
+                            out.add(l.decl)
+                    elif n.k == 'un' and n.op in ('++', '--'):
+                        l = strip(n.a[0])
+                        if l.k == 'var':
+                            out.add(l.decl)
+                    elif n.k == 'un' and n.op == '&':
+                        l = strip(n.a[0])
+                        if l.k == 'var':
+                            out.add(l.decl)
+    return out
+
+
+class SymRule(FactRule):
+    """Typestate = frozenset of (key, Lin): flow-sensitive linear values of
+    locals (key ('v', decl id)) and of selected struct fields assigned in the
+    function (key ('f', access path)).  Facts of other kinds (plain strings)
+    may be mixed in by subclasses."""
+    name = 'R4.sym'
+    track_fields = ()
+
+    def __init__(self, prog, fn):
+        FactRule.__init__(self, prog, fn)
+        self.loopvars = loop_assigned(fn)
+        self.locals = set(fn.locals.keys()) | set(p.decl for p in fn.params)
+
+    # -- environment access
+    def env_of(self, ts):
+        env = {}
+        fields = {}
+        for it in ts:
+            if isinstance(it, tuple) and len(it) == 2 and isinstance(it[0], tuple):
+                kind, k = it[0]
+                if kind == 'v':
+                    env[k] = it[1]
+                elif kind == 'f':
+                    fields[k] = it[1]
+        return env, fields
+
+    def value(self, e, ts):
+        """Linear form of e in state ts with tracked field aliases substituted."""
+        env, fields = self.env_of(ts)
+        r = lin(e, None, env)
+        if r is None:
+            return None
+        for _ in range(4):
+            changed = False
+            for path, l2 in fields.items():
+                if path in r.t:
+                    r = r.subst(path, l2)
+                    changed = True
+            if not changed:
+                break
+        return r
+
+    def set_key(self, ts, key, val):
+        ts = frozenset(it for it in ts if not (isinstance(it, tuple) and len(it) == 2 and it[0] == key))
+        if val is not None:
+            ts = ts | frozenset([(key, val)])
+        return ts
+
+    def on_assign(self, ctx, lhs, rhs, op, value, ts):
+        if ctx.fn is not self.fn:
+            return ts
+        l = strip(lhs)
+        key = None
+        if l.k == 'var' and l.decl in self.locals:
+            if l.decl in self.loopvars:
+                return self.set_key(ts, ('v', l.decl), None)
+            key = ('v', l.decl)
+        elif l.k == 'mem' and l.op in self.track_fields:
+            key = ('f', pstr(lhs))
+        else:
+            return self.sym_assign(ctx, lhs, rhs, op, ts)
+        new = None
+        if op == '=' and rhs is not None:
+            new = self.value(rhs, ts)
+        elif op in ('+=', '-=') and rhs is not None:
+            cur = self.value(lhs, ts) if key[0] == 'v' else None
+            if key[0] == 'v':
+                env, _ = self.env_of(ts)
+                cur = env.get(l.decl)
+                if cur is None:
+                    cur = Lin({l.op: 1})
+            d = self.value(rhs, ts)
+            if cur is not None and d is not None:
+                new = cur + d if op == '+=' else cur - d
+        elif op in ('++', '--'):
+            env, _ = self.env_of(ts)
+            cur = env.get(l.decl) if key[0] == 'v' else None
+            if cur is None and key[0] == 'v':
+                cur = Lin({l.op: 1})
+            if cur is not None:
+                new = cur + Lin(None, 1 if op == '++' else -1)
+        ts = self.set_key(ts, key, new)
+        return self.sym_assign(ctx, lhs, rhs, op, ts)
+
+    def sym_assign(self, ctx, lhs, rhs, op, ts):
+        return ts
+
+    def on_call(self, ctx, call, ts):
+        if ctx.fn is self.fn:
+            ts = self.sym_call(ctx, call, ts)
+            if ts is None:
+                return None
+            # locals whose address is passed are havocked after the call
+            for a in call.a[1:]:
+                sa = strip(a)
+                if sa is not None and sa.k == 'un' and sa.op == '&':
+                    v = strip(sa.a[0])
+                    if v.k == 'var' and v.decl in self.locals:
+                        # fresh symbol: the value after the call is unrelated to the value before
+                        ts = self.set_key(ts, ('v', v.decl), Lin({'%s#%d' % (v.op, call.line): 1}))
+        return ts
+
+    def sym_call(self, ctx, call, ts):
+        return ts
